@@ -20,7 +20,7 @@ def main():
     I = Interp(w, dsl.REG)
     tot = 0; bad = 0
     for q, c in dsl.REG.contracts.items():
-        if c.mode != "verify" or (filt and not any(q.endswith(f) or (f.endswith("*") and f[:-1] in q) for f in filt)):
+        if c.mode != "verify" or (filt and not any(q.endswith(f) or q.split("@")[0].endswith(f) or (f.endswith("*") and f[:-1] in q) for f in filt)):
             continue
         t0 = time.time()
         r = verify.verify_function(I, q, c.prop or "C??")
